@@ -653,7 +653,7 @@ func (m *Machine) visit(fr *frame, instr ssa.Instruction) int {
 		fr.env[in] = copyVal(m.get(fr, in.X).(Struct)[in.Field])
 	case *ssa.IndexAddr:
 		x := m.get(fr, in.X)
-		i := m.concIntF(fr, m.get(fr, in.Index))
+		i := m.concIntT(fr, m.get(fr, in.Index), isSignedType(in.Index.Type()))
 		switch a := x.(type) {
 		case []Value:
 			if i < 0 || i >= len(a) {
@@ -674,7 +674,7 @@ func (m *Machine) visit(fr *frame, instr ssa.Instruction) int {
 		}
 	case *ssa.Index:
 		x := m.get(fr, in.X)
-		i := m.concIntF(fr, m.get(fr, in.Index))
+		i := m.concIntT(fr, m.get(fr, in.Index), isSignedType(in.Index.Type()))
 		switch a := x.(type) {
 		case Array:
 			if i < 0 || i >= len(a) {
@@ -724,7 +724,11 @@ func (m *Machine) concInt(v Value) int { return m.concIntF(nil, v) }
 
 // concIntF returns a concrete int; a symbolic value is concretised by forking
 // over its feasible values (at most 512).
-func (m *Machine) concIntF(fr *frame, v Value) int {
+func (m *Machine) concIntF(fr *frame, v Value) int { return m.concIntT(fr, v, true) }
+
+// concIntT: signed tells how a symbolic value of less than 64 bits is to be read (index
+// expressions of unsigned type must not be sign-extended).
+func (m *Machine) concIntT(fr *frame, v Value, signed bool) int {
 	i := v.(Int)
 	if i.T == nil {
 		return int(int64(i.V))
@@ -765,7 +769,15 @@ func (m *Machine) concIntF(fr *frame, v Value) int {
 		conds[k] = tEq(i.T, bvConst(x, i.T.W))
 	}
 	d := m.choose(conds)
+	if !signed {
+		return int(vals[d] & mask(i.T.W))
+	}
 	return int(sx(vals[d], i.T.W))
+}
+
+func isSignedType(t types.Type) bool {
+	_, s, ok := intInfo(t)
+	return !ok || s
 }
 
 func (m *Machine) typeAssert(fr *frame, in *ssa.TypeAssert, x Iface) Value {
@@ -1309,7 +1321,7 @@ func (m *Machine) lookup(fr *frame, in *ssa.Lookup) Value {
 	x := m.get(fr, in.X)
 	switch a := x.(type) {
 	case Str:
-		i := m.concIntF(fr, m.get(fr, in.Index))
+		i := m.concIntT(fr, m.get(fr, in.Index), isSignedType(in.Index.Type()))
 		if i < 0 || i >= len(a.S) {
 			m.fault(fr, in, fmt.Sprintf("index out of range [%d] with length %d", i, len(a.S)))
 		}
